@@ -126,27 +126,30 @@ def r21(repo, ctx):
                 ctx.check(ok, 'R2.1', EULER, q, node, 'mean radius = first moment / zeroth moment of the distribution passed in',
                           f'mean radius is not first moment / number density ({U.src(node.value)})')
     ctx.floor('R2.1', min(found.values()), 1)
-    # empty-phase record: on the continue path every statistic slot is rewritten with zero
+    # empty-phase record: the branch taken below the density threshold rewrites every statistic slot with zero
+    # (whether it leaves by `continue` or is the if-side of an if/else), and every path through the body recomputes
     exits = body_paths(ctx, loop)
-    cont = exits.get('continue', set())
-    ctx.check(bool(cont) and all(set(EMPTY_SLOTS) <= st for st in cont), 'R2.1', EULER, q, loop,
-              'below the density threshold the mean radius, aspect ratio, volume fraction and precipitate content of the re-used record are all rewritten',
-              f'below the density threshold the record keeps stale values: slots not rewritten on the early exit: {sorted(set(EMPTY_SLOTS) - set.intersection(*map(set, cont))) if cont else EMPTY_SLOTS}',
-              construct='_calcMassBalance: early-exit path of the phase loop')
-    zero_ok = True
+    empties = []
     for node in ast.walk(loop):
-        if isinstance(node, ast.If):
-            body_conts = any(isinstance(s, ast.Continue) for s in node.body)
-            if body_conts:
-                for s in node.body:
-                    for k, v in slot_writes(s).items():
-                        if k in EMPTY_SLOTS and not is_zero_value(v):
-                            zero_ok = False
+        if isinstance(node, ast.If) and 'precipitateDensity' in U.src(inline(node.test, defs)):
+            w = {}
+            for s in node.body:
+                for sub in ast.walk(s):
+                    for k, v in slot_writes(sub).items():
+                        w.setdefault(k, []).append(v)
+            if any(isinstance(s, ast.Continue) for s in node.body) or any(k in EMPTY_SLOTS and all(is_zero_value(v) for v in vs) for k, vs in w.items()):
+                empties.append((node, w))
+    missing = sorted(set(EMPTY_SLOTS) - set.intersection(*[set(w) for _, w in empties])) if empties else EMPTY_SLOTS
+    ctx.check(bool(empties) and not missing, 'R2.1', EULER, q, loop,
+              'below the density threshold the mean radius, aspect ratio, volume fraction and precipitate content of the re-used record are all rewritten',
+              f'below the density threshold the record keeps stale values: slots not rewritten on the early exit: {missing}',
+              construct='_calcMassBalance: early-exit path of the phase loop')
+    zero_ok = all(is_zero_value(v) for _, w in empties for k, vs in w.items() if k in EMPTY_SLOTS for v in vs)
     ctx.check(zero_ok, 'R2.1', EULER, q, loop, 'the values written for an empty phase are zeros', 'an empty phase is recorded with non-zero statistics',
               construct='_calcMassBalance: zero record')
-    full = exits.get('fall', set())
+    full = set(exits.get('fall', set())) | set(exits.get('continue', set()))
     need = {'Ravg', 'volFrac', 'fconc', 'precipitateDensity'}
-    ctx.check(bool(full) and all(need <= st for st in full), 'R2.1', EULER, q, loop, 'on the populated path density, mean radius, volume fraction and precipitate content are all recomputed',
+    ctx.check(bool(exits.get('fall')) and all(need <= st for st in full), 'R2.1', EULER, q, loop, 'on every path through the phase loop density, mean radius, volume fraction and precipitate content are all rewritten',
               'on some path through the phase loop a statistic is not recomputed', construct='_calcMassBalance: populated path')
 
 
